@@ -291,6 +291,14 @@ func (t *T) Distinct(nontrivial bool) {
 	}
 }
 
+// AddEvals accounts for n further evaluations performed inside this case (sub-cases that are distinct by
+// construction, e.g. the pairs of one row of a grid); nontrivial of them are non-trivial.
+func (t *T) AddEvals(n, nontrivial int64) {
+	t.c.evals += n
+	t.c.distinctByConstruction += n
+	t.c.nontrivial += nontrivial
+}
+
 // Outcome counts a named outcome (how many cases ended which way).
 func (t *T) Outcome(label string) { t.c.outcomes[label]++ }
 
